@@ -174,17 +174,61 @@ macro_rules! all_variants {
 }
 
 /// Build `GeneratorOptions` from the 5-bit index of [`crate::oracle::Opts`].
+///
+/// The result must not depend on the order in which the setters are called nor on
+/// values set earlier, so the order rotates through all 24 permutations of the four flag
+/// setters and every third call first sets the opposite values.
 pub fn options(o: crate::oracle::Opts) -> tlsh::GeneratorOptions {
+    use std::sync::atomic::{AtomicU64, Ordering};
+    static CALLS: AtomicU64 = AtomicU64::new(0);
+    let k = CALLS.fetch_add(1, Ordering::Relaxed);
     let mut g = tlsh::GeneratorOptions::new();
-    g.length_processing_mode(if o.conservative() {
-        tlsh::DataLengthProcessingMode::Conservative
-    } else {
-        tlsh::DataLengthProcessingMode::Optimistic
-    })
-    .pure_integer_qratio_computation(o.intq())
-    .allow_small_size_files(o.small())
-    .allow_statistically_weak_buckets_half(o.half())
-    .allow_statistically_weak_buckets_quarter(o.quarter());
+    let mode = |c: bool| {
+        if c {
+            tlsh::DataLengthProcessingMode::Conservative
+        } else {
+            tlsh::DataLengthProcessingMode::Optimistic
+        }
+    };
+    let apply = |g: &mut tlsh::GeneratorOptions, which: usize, invert: bool| {
+        let x = |v: bool| v != invert;
+        match which {
+            0 => {
+                g.pure_integer_qratio_computation(x(o.intq()));
+            }
+            1 => {
+                g.allow_small_size_files(x(o.small()));
+            }
+            2 => {
+                g.allow_statistically_weak_buckets_half(x(o.half()));
+            }
+            _ => {
+                g.allow_statistically_weak_buckets_quarter(x(o.quarter()));
+            }
+        }
+    };
+    // the k-th permutation of [0,1,2,3]
+    let mut items = vec![0usize, 1, 2, 3];
+    let mut perm = Vec::with_capacity(4);
+    let mut r = (k % 24) as usize;
+    for n in (1..=4).rev() {
+        let f: usize = (1..n).product();
+        perm.push(items.remove(r / f));
+        r %= f;
+    }
+    if k % 3 == 1 {
+        g.length_processing_mode(mode(!o.conservative()));
+        for &w in perm.iter().rev() {
+            apply(&mut g, w, true);
+        }
+    }
+    if k % 2 == 0 {
+        g.length_processing_mode(mode(o.conservative()));
+    }
+    for &w in &perm {
+        apply(&mut g, w, false);
+    }
+    g.length_processing_mode(mode(o.conservative()));
     g
 }
 
